@@ -1,0 +1,115 @@
+//go:build verif
+
+package main
+
+import (
+	"encoding/json"
+	"math/big"
+	"os"
+
+	"github.com/bmatcuk/doublestar/v4"
+	"github.com/ludo-technologies/pyscn/service"
+)
+
+func init() {
+	// collect: chdir to "cwd" and run the real FileReader.CollectPythonFiles on the
+	// target spellings; returns the path list exactly as produced.
+	register("collect", func(raw json.RawMessage) (interface{}, error) {
+		var req struct {
+			Cwd       string   `json:"cwd"`
+			Targets   []string `json:"targets"`
+			Include   []string `json:"include"`
+			Exclude   []string `json:"exclude"`
+			Recursive bool     `json:"recursive"`
+		}
+		if err := json.Unmarshal(raw, &req); err != nil {
+			return nil, err
+		}
+		old, err := os.Getwd()
+		if err != nil {
+			return nil, err
+		}
+		if err := os.Chdir(req.Cwd); err != nil {
+			return nil, err
+		}
+		defer func() { _ = os.Chdir(old) }()
+		files, cerr := service.NewFileReader().CollectPythonFiles(req.Targets, req.Recursive, req.Include, req.Exclude)
+		res := map[string]interface{}{"files": files, "failed": cerr != nil}
+		if files == nil {
+			res["files"] = []string{}
+		}
+		if cerr != nil {
+			res["message"] = cerr.Error()
+		}
+		return res, nil
+	})
+
+	// glob: doublestar.Match as the file reader calls it (error ignored).
+	register("glob", func(raw json.RawMessage) (interface{}, error) {
+		var req struct {
+			Pattern string `json:"pattern"`
+			Path    string `json:"path"`
+		}
+		if err := json.Unmarshal(raw, &req); err != nil {
+			return nil, err
+		}
+		m, err := doublestar.Match(req.Pattern, req.Path)
+		return map[string]interface{}{"match": m, "bad_pattern": err != nil}, nil
+	})
+
+	// globgrid: every pattern against every path; per pattern the results are packed
+	// into a number (first path = most significant bit), printed in decimal.
+	register("globgrid", func(raw json.RawMessage) (interface{}, error) {
+		var req struct {
+			Patterns []string `json:"patterns"`
+			Paths    []string `json:"paths"`
+		}
+		if err := json.Unmarshal(raw, &req); err != nil {
+			return nil, err
+		}
+		rows := make([]string, len(req.Patterns))
+		bad := make([]bool, len(req.Patterns))
+		one := big.NewInt(1)
+		for i, p := range req.Patterns {
+			acc := new(big.Int)
+			for _, n := range req.Paths {
+				acc.Lsh(acc, 1)
+				m, err := doublestar.Match(p, n)
+				if err != nil {
+					bad[i] = true
+				}
+				if m {
+					acc.Or(acc, one)
+				}
+			}
+			rows[i] = acc.String()
+		}
+		return map[string]interface{}{"rows": rows, "bad_pattern": bad}, nil
+	})
+
+	// include: shouldIncludeFile (patterns against one path) and shouldSkipDirectory.
+	register("include", func(raw json.RawMessage) (interface{}, error) {
+		var req struct {
+			Path    string   `json:"path"`
+			Include []string `json:"include"`
+			Exclude []string `json:"exclude"`
+		}
+		if err := json.Unmarshal(raw, &req); err != nil {
+			return nil, err
+		}
+		return map[string]interface{}{"include": service.VerifShouldIncludeFile(req.Path, req.Include, req.Exclude)}, nil
+	})
+	register("skipdir", func(raw json.RawMessage) (interface{}, error) {
+		var req struct {
+			Names []string `json:"names"`
+		}
+		if err := json.Unmarshal(raw, &req); err != nil {
+			return nil, err
+		}
+		out := make([]bool, len(req.Names))
+		for i, n := range req.Names {
+			out[i] = service.VerifShouldSkipDirectory(n)
+		}
+		return map[string]interface{}{"skip": out}, nil
+	})
+}
